@@ -56,86 +56,72 @@ def run(prog: Program, res: Result) -> None:
         res.ob(False)
         res.add(Finding(P, f"C04.{rule}", construct_key(prog, node, M), f"{M.relpath}:{getattr(node, 'lineno', 0)}", msg))
 
-    # ------------------------------------------------------------------ R1
-    loops = [n for n in own_nodes(opt) if isinstance(n, (ast.While, ast.For))]
-    top = [st for st in opt.node.body if isinstance(st, ast.While)]
-    if len(top) != 1 or len(loops) != 1:
-        res.errors.append(f"optimize() contains {len(loops)} loops ({len(top)} top-level while): 1 confirmed")
-        return
-    loop = top[0]
-    if not (isinstance(loop.test, ast.Constant) and loop.test.value is True) or loop.orelse:
-        bad("R1-loop-structure", loop, f"the main loop is `while {norm(loop.test)}` (with else={bool(loop.orelse)}), expected `while True`")
-    body = loop.body
-
-    def is_call_stmt(st, name):
-        return isinstance(st, ast.Expr) and isinstance(st.value, ast.Call) and dotted(st.value.func) == name
-
-    def is_snapshot(st):
-        return (is_call_stmt(st, "evolution.append") and len(st.value.args) == 1 and isinstance(st.value.args[0], ast.Call)
-                and dotted(st.value.args[0].func) == "Population")
-    idx = {"step": [], "snap": [], "check": [], "brk": [], "inc": []}
-    has_stop_var = None
-    for i, st in enumerate(body):
-        if is_call_stmt(st, "self.optimization_step"):
-            idx["step"].append(i)
-        elif is_snapshot(st):
-            idx["snap"].append(i)
-        elif isinstance(st, ast.Assign) and isinstance(st.value, ast.Call) and dotted(st.value.func) == "self.__error_check__":
-            idx["check"].append(i)
-            t = st.targets[0]
-            if isinstance(t, ast.Tuple) and len(t.elts) == 3 and isinstance(t.elts[2], ast.Name):
-                has_stop_var = t.elts[2].id
-            elif isinstance(t, ast.Name):
-                has_stop_var = None
-        elif isinstance(st, ast.If) and len(st.body) == 1 and isinstance(st.body[0], ast.Break) and not st.orelse:
-            idx["brk"].append(i)
-        elif isinstance(st, ast.AugAssign) and dotted(st.target) == "self._current_cycle":
-            idx["inc"].append(i)
-    order_ok = all(len(v) == 1 for v in idx.values()) and \
-        idx["step"][0] < idx["snap"][0] < idx["check"][0] < idx["brk"][0] < idx["inc"][0]
-    res.ob(order_ok, f"{M.relpath}:{loop.lineno} loop: " + ", ".join(f"{k}@{v}" for k, v in idx.items()),
-           construct_key(prog, loop, M))
+    # ------------------------------------------------------------------ R1 (roles by data flow: optmodel)
+    from ..optmodel import extract, snapshot_of, is_step_call
+    m = extract(prog)
+    loop = m.loop
+    pre = m.pre
+    kinds = [e.kind for e in m.events]
+    pos = {k: [i for i, e in enumerate(m.events) if e.kind == k] for k in ("step", "snapshot", "check", "exit-if", "inc")}
+    desc = ", ".join(f"{k}@{v}" for k, v in pos.items())
+    if m.loop_kind not in ("while-true", "while-not-stop") or loop.orelse:
+        bad("R1-loop-structure", loop, f"the main loop is `{m.loop_kind}`: neither `while True` with a break on the stop decision nor "
+                                       f"`while not <stop decision>`")
+    need = ("step", "snapshot", "check", "inc") + (("exit-if",) if m.loop_kind == "while-true" else ())
+    order_ok = all(len(pos[k]) == 1 for k in need) and pos["step"][0] < pos["snapshot"][0] < pos["check"][0] < pos["inc"][0] \
+        and (m.loop_kind != "while-true" or pos["check"][0] < pos["exit-if"][0] < pos["inc"][0]) \
+        and (m.loop_kind == "while-true" or not pos["exit-if"])
+    res.ob(order_ok, f"{M.relpath}:{loop.lineno} loop ({m.loop_kind}): {desc}", construct_key(prog, loop, M))
     if not order_ok:
         bad("R1-loop-order", loop,
-            "an iteration is not step -> snapshot -> __error_check__ -> `if <stop>: break` -> `_current_cycle += 1` (last): "
-            + ", ".join(f"{k}@{v}" for k, v in idx.items()))
-    # calls of __error_check__ anywhere else
+            "an iteration is not step -> snapshot -> __error_check__ -> leave iff stop -> `_current_cycle += 1`: " + desc)
     n_checks = [n for n in own_nodes(opt) if isinstance(n, ast.Call) and dotted(n.func) == "self.__error_check__"]
     if len(n_checks) != 1:
         bad("R1-one-error-check", loop, f"__error_check__ is called {len(n_checks)} times per iteration/run; each call appends a rate")
-    if idx["brk"] and idx["check"]:
-        br = body[idx["brk"][0]]
-        okb = isinstance(br.test, ast.Name) and br.test.id == has_stop_var
+    if m.loop_kind == "while-true" and pos["exit-if"]:
+        br = m.events[pos["exit-if"][0]].stmt
+        okb = isinstance(br.test, ast.Name) and br.test.id == m.stop_var
         res.ob(okb, f"{M.relpath}:{br.lineno} {norm(br.test)} -> break", construct_key(prog, br, M))
         if not okb:
             bad("R1-break-iff-stop", br, f"`break` is taken on `{norm(br.test)}`, not on the stop decision returned by __error_check__")
-    if idx["inc"]:
-        inc = body[idx["inc"][0]]
-        oki = isinstance(inc.op, ast.Add) and isinstance(inc.value, ast.Constant) and inc.value.value == 1
-        res.ob(oki, f"{M.relpath}:{inc.lineno} {norm(inc)}", construct_key(prog, inc, M))
+    if m.loop_kind == "while-not-stop":
+        # the flag starts False so that at least one cycle runs
+        inits = [v for (nm, v, st) in __import__("pvlint.optmodel", fromlist=["simple_assigns"]).simple_assigns(opt.node)
+                 if nm == m.stop_var and st in pre]
+        oki = len(inits) == 1 and isinstance(inits[0], ast.Constant) and inits[0].value is False
+        res.ob(oki, f"{M.relpath}: stop flag `{m.stop_var}` initialised False before the loop", "stop-flag-init")
         if not oki:
-            bad("R1-counter-increment", inc, f"the cycle counter is updated by `{norm(inc)}`, not `+= 1`")
+            bad("R1-break-iff-stop", loop, f"the loop runs `while not {m.stop_var}` but `{m.stop_var}` is not initialised to False before it")
+    if pos["inc"]:
+        ev = m.events[pos["inc"][0]]
+        inc = ev.stmt
+        oki = isinstance(inc.op, ast.Add) and isinstance(inc.value, ast.Constant) and inc.value.value == 1
+        g = ev.detail.get("guard")
+        if g is not None and not (isinstance(g, ast.UnaryOp) and isinstance(g.op, ast.Not) and isinstance(g.operand, ast.Name)
+                                  and g.operand.id == m.stop_var):
+            oki = False
+        res.ob(oki, f"{M.relpath}:{inc.lineno} {norm(inc)}" + (f" under `{norm(g)}`" if g is not None else ""), construct_key(prog, inc, M))
+        if not oki:
+            bad("R1-counter-increment", inc, f"the cycle counter is updated by `{norm(inc)}`" + (f" under `{norm(g)}`" if g is not None else "")
+                + ", not by `+= 1` whenever the loop continues")
     # other exits / jumps inside the loop
+    own_break = m.events[pos["exit-if"][0]].stmt.body[0] if (m.loop_kind == "while-true" and pos["exit-if"]) else None
     for n in ast.walk(loop):
-        if isinstance(n, (ast.Continue, ast.Return)) or (isinstance(n, ast.Break) and not (idx["brk"] and n is body[idx["brk"][0]].body[0])):
+        if isinstance(n, (ast.Continue, ast.Return)) or (isinstance(n, ast.Break) and n is not own_break):
             bad("R1-no-other-exit", n, f"`{norm(n)}` inside the main loop: an iteration may skip its snapshot, rate or counter update")
-    # statements between that are not understood (other than the best-agent assignment and debug prints)
-    for i, st in enumerate(body):
-        if any(i in v for v in idx.values()):
+    has_stop_var = m.stop_var
+    for e in m.events:
+        st = e.stmt
+        if e.kind not in ("other", "debug", "best"):
             continue
-        if isinstance(st, ast.If) and dotted(st.test) == "self._debug":
-            continue
-        if isinstance(st, ast.Assign) and isinstance(st.value, ast.Call) and dotted(st.value.func) == "special_agents":
-            continue
-        # any other statement is tolerated (it cannot jump: checked above) unless it rebinds the stop decision
         if has_stop_var and any(isinstance(n, ast.Name) and n.id == has_stop_var and isinstance(n.ctx, ast.Store) for n in ast.walk(st)):
-            bad("R1-break-iff-stop", st, f"`{norm(st, 70)}` rebinds the stop decision between __error_check__ and the break")
+            bad("R1-break-iff-stop", st, f"`{norm(st, 70)}` rebinds the stop decision between __error_check__ and the exit test")
         elif any(isinstance(n, ast.Call) and dotted(n.func) in ("self.optimization_step", "self.__error_check__") for n in ast.walk(st)):
             bad("R1-loop-order", st, f"`{norm(st, 70)}` runs a second step / error check inside one iteration")
     # one snapshot before the loop, after _init_population
-    pre = opt.node.body[:opt.node.body.index(loop)]
-    pre_snap = [st for st in pre if is_snapshot(st)]
-    pre_init = [i for i, st in enumerate(pre) if is_call_stmt(st, "self._init_population")]
+    pre_snap = m.pre_snapshots
+    pre_init = [i for i, st in enumerate(pre) if isinstance(st, ast.Expr) and isinstance(st.value, ast.Call)
+                and dotted(st.value.func) == "self._init_population"]
     oks = len(pre_snap) == 1 and len(pre_init) == 1 and pre.index(pre_snap[0]) > pre_init[0]
     res.ob(oks, f"{M.relpath}: initial snapshot after _init_population", "pre-snapshot")
     if not oks:
@@ -238,7 +224,7 @@ def run(prog: Program, res: Result) -> None:
         rets = [n for n in own_nodes(ec) if isinstance(n, ast.Return)]
         okr = False
         if len(rets) == 1 and isinstance(rets[0].value, ast.Tuple) and len(rets[0].value.elts) == 3:
-            third = rets[0].value.elts[2]
+            third = origin(ec.node, rets[0].value.elts[2])
             if isinstance(third, ast.Call) and dotted(third.func) == "self.__should_stop__" and len(third.args) == 1 \
                     and isinstance(third.args[0], ast.Name) and isinstance(e_app.args[0], ast.Name) and third.args[0].id == e_app.args[0].id \
                     and rets[0].lineno > d_app.lineno and rets[0].lineno > e_app.lineno:
